@@ -47,9 +47,12 @@ UpdSentences == <<
   <<T_DELETE, T_SSa, T_SV>>,
   <<T_SET, T_A, T_EQ, T_V, T_REMOVE, T_Bt, T_ADD, T_Cc, T_W>>,
   <<T_SET, T_M, T_DOT, T_ZZ, T_EQ, T_V>>,
-  <<T_SET, T_HN, T_EQ, T_V>> >>
+  <<T_SET, T_HN, T_EQ, T_V>>,
+  \* a default that is itself a call, behind an attribute that EXISTS (b) and behind one that does not (zz): the default is part
+  \* of the sentence whether or not it is needed
+  <<T_SET, T_Bt, T_EQ, T_INE, T_LP, T_Bt, T_CM, T_INE, T_LP, T_ZZ, T_CM, T_W, T_RP, T_RP>> >>
 CondEdit == << T_A, T_ZZ, T_HN, T_V, T_W, T_EQ, T_NE, T_LT, T_LP, T_RP, T_CM, T_AND, T_OR, T_NOT, T_BETWEEN, T_IN, T_and, T_AE, T_SZ, T_CT, T_DOT, T_IX0, T_BAD, T_SET >>
-UpdEdit  == << T_A, T_Bt, T_ZZ, T_HN, T_V, T_W, T_EQ, T_PLUS, T_MINUS, T_LP, T_RP, T_CM, T_SET, T_REMOVE, T_ADD, T_DELETE, T_set, T_INE, T_LA, T_DOT, T_IX0, T_BAD, T_AND >>
+UpdEdit  == << T_A, T_Bt, T_ZZ, T_HN, T_V, T_W, T_EQ, T_PLUS, T_MINUS, T_LP, T_RP, T_CM, T_SET, T_REMOVE, T_ADD, T_DELETE, T_set, T_INE, T_LA, T_DOT, T_IX0, T_BAD, T_AND, T_SZ, T_AE >>
 Sentences == IF Kind = "cond" THEN CondSentences ELSE UpdSentences
 Edit == IF Kind = "cond" THEN CondEdit ELSE UpdEdit
 EditSet == { Edit[i] : i \in (DOMAIN Edit) \cap EditTokens }
